@@ -41,6 +41,8 @@ type scenario struct {
 	QueueSize int64
 	TTL       time.Duration
 	Arrivals  []arrival
+	// LessPre: explore this (larger) scenario with one preemption less than the others
+	LessPre bool
 }
 
 type reqState struct {
@@ -55,6 +57,8 @@ type reqState struct {
 	returnAt  time.Duration
 	waited    bool // was pushed to the heap (did not return at arrival)
 	createdAt time.Duration
+	// pushed-and-unanswered other requests at the end of this request's own critical section
+	occupiedAtArrival int
 }
 
 type state struct {
@@ -123,6 +127,13 @@ func invariant(x *mc.Exec, sc scenario) {
 			if rs.arrivedAt < 0 {
 				rs.arrivedAt = now
 				rs.waited = inHeap[rs.a.Name] // pushed to the heap during its critical section
+				// requests that may occupy a queue place at this instant: pushed earlier and
+				// not yet answered (granted, or returned from Enqueue after their TTL)
+				for _, o := range st.reqs {
+					if o != rs && o.waited && !o.granted && !o.returned {
+						rs.occupiedAtArrival++
+					}
+				}
 			}
 		}
 	}
@@ -174,7 +185,6 @@ func invariant(x *mc.Exec, sc scenario) {
 	}
 }
 
-
 func final(x *mc.Exec, sc scenario) (string, string) {
 	st := x.Vals["st"].(*state)
 	if x.Horizon {
@@ -203,6 +213,9 @@ func final(x *mc.Exec, sc scenario) (string, string) {
 			return "TRUE-WITHOUT-GRANT", fmt.Sprintf("%s returned true but was never granted", rs.a.Name)
 		}
 		if !rs.result {
+			if !rs.waited && rs.arrivedAt >= 0 && int64(rs.occupiedAtArrival) < sc.QueueSize {
+				return "SPURIOUS-QUEUE-FULL", fmt.Sprintf("%s was refused a place at once (arrived %v) although only %d of %d queue places were taken by unanswered requests", rs.a.Name, rs.arrivedAt, rs.occupiedAtArrival, sc.QueueSize)
+			}
 			if rs.waited && rs.returnAt < rs.arrivedAt+sc.ttl(rs.a) {
 				return "EARLY-REJECT", fmt.Sprintf("%s was rejected at %v although it arrived at %v with ttl %v", rs.a.Name, rs.returnAt, rs.arrivedAt, sc.ttl(rs.a))
 			}
@@ -324,6 +337,7 @@ var scenarios = []scenario{
 	{Name: "late-arrival-before-rollover", Quota: 1, QueueSize: 2, TTL: 5 * W / 2, Arrivals: []arrival{{"A", 1, 0, 0}, {"B", 1, W - time.Millisecond, 0}}},
 	{Name: "three-priorities-q1-size1", Quota: 1, QueueSize: 1, TTL: 5 * W / 2, Arrivals: []arrival{{"A", 1, 0, 0}, {"B", 2, 0, 0}, {"C", 0, time.Millisecond, 0}}},
 	{Name: "expired-waiter-ahead-of-live-one", Quota: 1, QueueSize: 3, TTL: 5 * W / 2, Arrivals: []arrival{{"A", 1, 0, 0}, {"B", 0, time.Millisecond, W / 4}, {"C", 1, W / 2, 0}}},
+	{LessPre: true, Name: "arrivals-after-expired-waiter-size2", Quota: 1, QueueSize: 2, TTL: 5 * W / 2, Arrivals: []arrival{{"A", 1, 0, 0}, {"B", 1, time.Millisecond, W / 4}, {"C", 1, W / 2, 0}, {"D", 1, W/2 + time.Millisecond, 0}}},
 	{Plugin: true, Name: "plugin-two-first-requests", Quota: 1, QueueSize: 2, TTL: 2 * W, Arrivals: []arrival{{"A", 1, 0, 0}, {"B", 1, 0, 0}}},
 	{Plugin: true, Name: "plugin-three-priorities", Quota: 1, QueueSize: 1, TTL: 2 * W, Arrivals: []arrival{{"A", 1, 0, 0}, {"lo", 2, time.Millisecond, 0}, {"hi", 0, 2 * time.Millisecond, 0}}},
 	{Name: "three-priorities-q1-size2", Quota: 1, QueueSize: 2, TTL: 7 * W / 2, Arrivals: []arrival{{"A", 1, 0, 0}, {"lo", 2, time.Millisecond, 0}, {"hi", 0, 2 * time.Millisecond, 0}}},
@@ -358,7 +372,7 @@ func TestCheck(t *testing.T) {
 		names = append(names, sc.Name)
 	}
 	sort.Strings(names)
-	r.Rule = fmt.Sprintf("all schedules of scenarios %s (enqueuing goroutines + the queue's real roll-over goroutine) with <=%d preemptions and <=%d early time steps, scheduling points at every sync operation, virtual time quantum W/2; non-trivial/distinct = distinct observation log (verdicts, grant windows, times)", strings.Join(names, ","), pre, et)
+	r.Rule = fmt.Sprintf("all schedules of scenarios %s (enqueuing goroutines + the queue's real roll-over goroutine) with <=%d preemptions (one less for the four-arrival scenario) and <=%d early time steps, scheduling points at every sync operation, virtual time quantum W/2; non-trivial/distinct = distinct observation log (verdicts, grant windows, times)", strings.Join(names, ","), pre, et)
 	r.Assume("scheduling granularity = sync operations; native channel operations are not split", "virtual time (testing/synctest)")
 	if r.Parallel(t, 16) {
 		r.Finish(t)
@@ -367,6 +381,9 @@ func TestCheck(t *testing.T) {
 	for _, sc := range scenarios {
 		o := build(sc)
 		o.MaxPreempt, o.MaxEarlyT = pre, et
+		if sc.LessPre {
+			o.MaxPreempt = pre - 1
+		}
 		mc.Explore(t, r, o)
 	}
 	r.Finish(t)
